@@ -98,13 +98,72 @@ func targets() []*target {
 			tymap:   map[string]string{"LWs": "list member"},
 			params:  []string{"(m_mLevelUseErrorDevice : list (Z * bool))", "(g_discardWriter s_Normal s_Error : list member)", "(s_leveled : gomap (list member))", "(lvl : Z)"},
 			result:  "list member", final: "w"},
+
+		// LWs.WriteLeveled / LWs.Write: a fold over the members; what the outside world does is an oracle:
+		//   wres k            = (count, failed) of the k-th Write attempt of the history
+		//   as_T_of_S         = the type assertion v.(T) on a value of static type S (Some = it holds)
+		//   fld_Writer        = the field Writer of a *logwr cell
+		// effects are threaded as tr_ (the trace of SetLevel / Write events) and k_ (the attempt clock)
+		{pkg: slogPkg, recv: "LWs", fn: "WriteLeveled", coq: "write_leveled", file: "Delivery", strict: true, fallback: "GenRef.write_leveled_ref",
+			comment: "(fold over the members; returns (n, err, trace, clock))",
+			tymap:   deliveryTypes("member"), fields: map[string]string{"Writer": "fld_Writer"}, effects: []string{"tr_", "k_"},
+			calls: map[string]callSpec{
+				"LevelSettable.SetLevel": {ev: "EvSet %r %0"},
+				"LogWriter.Write":        {res: "io_write wres k_", ev: "EvWrite (member_id %r)", tick: true},
+				"errors.Join":            {pure: "err_join %0 %1"},
+			},
+			params: []string{"(as_LevelSettable_of_LogWriter as_logwr_of_LogWriter : member -> option wid)", "(fld_Writer : wid -> wid)",
+				"(as_LevelSettable_of_io_Writer : wid -> option wid)", "(wres : nat -> Z * bool)",
+				"(s : list member)", "(lvl : Z)", "(p : bytes)", "(tr_ : list wevent)", "(k_ : nat)"},
+			result: "Z * error * list wevent * nat", final: "(n, err, tr_, k_)"},
+		{pkg: slogPkg, recv: "LWs", fn: "Write", coq: "write_plain", file: "Delivery", strict: true, fallback: "GenRef.write_plain_ref",
+			comment: "(fold over the members; returns (n, err, trace, clock))",
+			tymap:   deliveryTypes("member"), effects: []string{"tr_", "k_"},
+			calls: map[string]callSpec{
+				"LogWriter.Write": {res: "io_write wres k_", ev: "EvWrite (member_id %r)", tick: true},
+				"errors.Join":     {pure: "err_join %0 %1"},
+			},
+			params: []string{"(wres : nat -> Z * bool)", "(s : list member)", "(p : bytes)", "(tr_ : list wevent)", "(k_ : nat)"},
+			result: "Z * error * list wevent * nat", final: "(n, err, tr_, k_)"},
+		// Entry.printOut: findWriter is an oracle (C03 ties it), WriteLeveled is the translation above,
+		// the nested s.Warn(..) is the LAST thing the function does: it ends in PoWarn (the caller of the
+		// theorem continues with the model of Warn) or in PoReturn
+		{pkg: slogPkg, recv: "Entry", fn: "printOut", coq: "print_out", file: "Delivery", strict: true, fallback: "GenRef.print_out_ref",
+			comment: "(ends in PoReturn or, with the nested diagnostic pending, in PoWarn)",
+			tymap:   deliveryTypes("logwriter"), effects: []string{"tr_", "k_"}, nilTest: map[string]string{"logwriter": "lw_is_nil"},
+			calls: map[string]callSpec{
+				"*Entry.findWriter":      {pure: "f_findWriter %0"},
+				"LWs.WriteLeveled":       {state: "write_leveled asm_LevelSettable asm_logwr fld_Writer as_LevelSettable_of_io_Writer wres %r %0 %1 tr_ k_"},
+				"LevelSettable.SetLevel": {ev: "EvSet %r %0"},
+				"LogWriter.Write":        {res: "io_write wres k_", ev: "EvWrite (lw_id %r)", tick: true},
+				"collectWrittenBytes":    {ignore: true},
+				"*Entry.Warn":            {tail: "PoWarn"},
+				// anything else the function could end with is translated too, so that such an edit breaks
+				// the proof instead of falling back
+				"LWs.Write":    {state: "write_plain wres %r %0 tr_ k_"},
+				"*Entry.Error": {tail: "PoOther"}, "*Entry.Info": {tail: "PoOther"}, "*Entry.Debug": {tail: "PoOther"},
+				"*Entry.Trace": {tail: "PoOther"}, "*Entry.Fatal": {tail: "PoOther"}, "*Entry.Panic": {tail: "PoOther"},
+				"*Entry.Print": {tail: "PoOther"}, "*Entry.Println": {tail: "PoOther"},
+			},
+			params: []string{"(asm_LevelSettable asm_logwr : member -> option wid)", "(fld_Writer : wid -> wid)", "(as_LevelSettable_of_io_Writer : wid -> option wid)",
+				"(as_LWs_of_LogWriter : logwriter -> option (list member))", "(as_LevelSettable_of_LogWriter : logwriter -> option wid)",
+				"(f_findWriter : Z -> logwriter)", "(wres : nat -> Z * bool)", "(lvl : Z)", "(msg : bytes)", "(tr_ : list wevent)", "(k_ : nat)"},
+			result: "po_result", final: "(PoReturn tr_ k_)"},
 	}
+}
+
+// Go types of the delivery functions -> Coq types; a LogWriter is a member of a list in LWs.*, and
+// whatever findWriter returned (nil, a list, a single writer) in printOut
+func deliveryTypes(logWriter string) map[string]string {
+	return map[string]string{"LogWriter": logWriter, "LWs": "list member", "LevelSettable": "wid", "*logwr": "wid", "io.Writer": "wid",
+		"error": "error", "[]byte": "bytes"}
 }
 
 // the generated files of the translator: name, Require line
 var genFiles = [][2]string{
 	{"Decisions", "Require Import Verif.Model.Base Verif.Model.Decision Verif.Model.DecisionRef Verif.Model.Level."},
 	{"Routing", "Require Import Verif.Model.Base Verif.Model.Decision Verif.Model.GoSem Verif.Model.Writers Verif.Model.GenRef."},
+	{"Delivery", "Require Import Verif.Model.Base Verif.Model.Decision Verif.Model.GoSem Verif.Model.Writers Verif.Model.GenRef."},
 }
 
 func genDecisions(file, require string) string {
@@ -121,11 +180,18 @@ func genDecisions(file, require string) string {
 			sb.WriteString("Definition translated_" + t.coq + " := true.\n\n")
 			site("decision:"+t.coq, "translated")
 		} else {
-			sb.WriteString("(* untranslatable: " + t.recv + "." + t.fn + ": " + strings.ReplaceAll(why, "*)", "* )") + " *)\n")
+			sb.WriteString("(* untranslatable: " + t.recv + "." + t.fn + ": " + commentSafe(why) + " *)\n")
 			sb.WriteString("Definition " + t.coq + " := " + t.fallback + ".\n")
 			sb.WriteString("Definition translated_" + t.coq + " := false.\n\n")
 			site("decision:"+t.coq, "fallback: "+why)
 		}
 	}
 	return sb.String()
+}
+
+// commentSafe: text that can stand inside a Coq comment (a double quote would open a string there)
+func commentSafe(s string) string {
+	s = strings.ReplaceAll(s, "*)", "* )")
+	s = strings.ReplaceAll(s, "(*", "( *")
+	return strings.ReplaceAll(s, "\"", "'")
 }
